@@ -520,6 +520,16 @@ func (vc *VC) callMods(c *ssa.CallCommon, ms *modSet) {
 		return
 	}
 	callee := c.StaticCallee()
+	if callee == nil {
+		// ghost call counters of interface methods and named function values
+		if c.IsInvoke() {
+			if named, ok := c.Value.Type().(*types.Named); ok && named.Obj().Pkg() != nil {
+				ms.comps["N_"+sanitize(named.Obj().Pkg().Name()+"."+named.Obj().Name()+"."+c.Method.Name())] = "Int"
+			}
+		} else if fname := fnValueName(c.Value); fname != "" {
+			ms.comps["N_"+sanitize("fn."+fname)] = "Int"
+		}
+	}
 	if callee != nil {
 		ms.comps["N_"+sanitize(funcKey(callee))] = "Int" // ghost call counter
 		if vc.isDropped(callee) {
